@@ -626,3 +626,72 @@ def rule_condspec(ctx, prop: str) -> RuleResult:
                 res.add(Finding("CONDSPEC", file, n.lineno, qn, marker, f"{why} (gets through although: {shown})"))
     res.floor = n_rows
     return res
+
+
+PAIR_SITES = [
+    # (file, function, (callee-side subject, block-side subject))
+    ("src/exo/rewrite/LoopIR_unification.py", "Unification.unify_stmts", ("ps", "bs")),
+    ("src/exo/rewrite/LoopIR_unification.py", "Unification.unify_e", ("pe", "be")),
+]
+
+
+def rule_paircond(ctx, prop: str) -> RuleResult:
+    """Unification of a constructor pairs the same field of the callee node and of the block node:
+    `unify_e(ps.lo, bs.lo)`, `unify_stmts(ps.body, bs.body)`, `zip(pe.args, be.args)`.  Such a pairing
+    may depend on the constructor dispatch only.  A pairing placed under any further condition — in
+    particular one that looks at ONE side (`if ps.lo is not the literal 0: unify(ps.lo, bs.lo)`) — lets
+    two nodes that differ in that field unify: a block loop seq(3, 16) becomes an instance of a
+    callee loop seq(0, n)."""
+    ix = ctx.ix
+    res = RuleResult("PAIRCOND")
+    n_pairs = 0
+    for file, qn, (ps, bs) in PAIR_SITES:
+        f = ix.func(file, qn)
+        res.analysed.append(f"{file}:{qn}")
+        bound = set(f.params()) | {k.id for k in f.body_nodes() if isinstance(k, ast.Name) and isinstance(k.ctx, ast.Store)}
+        if ps not in bound or bs not in bound:
+            raise AnalysisError(f"anchor vanished: {qn} no longer binds ({ps}, {bs})")
+
+        def is_dispatch(t: ast.AST) -> bool:
+            for k in ast.walk(t):
+                if isinstance(k, ast.Call) and dotted(k.func) in ("isinstance", "type") and k.args and isinstance(k.args[0], ast.Name) and k.args[0].id in (ps, bs):
+                    return True
+            return False
+
+        for n in f.body_nodes():
+            if not (isinstance(n, ast.Call) and len(n.args) >= 2):
+                continue
+            a, b = n.args[0], n.args[1]
+            if not (isinstance(a, ast.Attribute) and isinstance(b, ast.Attribute) and isinstance(a.value, ast.Name) and isinstance(b.value, ast.Name)):
+                continue
+            if a.attr != b.attr or (a.value.id, b.value.id) != (ps, bs):
+                continue
+            n_pairs += 1
+            res.instances += 1
+            res.nontrivial += 1
+            extra = []
+            p = n
+            while p is not None and p is not f.node:
+                q = parent(p)
+                if isinstance(q, ast.If) and not is_dispatch(q.test):
+                    in_body = any(p is s for s in q.body)
+                    in_else = any(p is s for s in q.orelse)
+                    if in_body or in_else:
+                        names = {k.id for k in ast.walk(q.test) if isinstance(k, ast.Name)}
+                        extra.append((q, names))
+                p = q
+            ok = not extra
+            res.ob(ok)
+            if not ok:
+                q, names = extra[0]
+                one_sided = (ps in names) != (bs in names)
+                res.add(Finding("PAIRCOND", file, n.lineno, qn, f"cond:{a.attr}",
+                                f"`{ast.unparse(n)[:60]}` is executed only under `{ast.unparse(q.test)[:70]}`"
+                                + (f", a test of one side only" if one_sided else "")
+                                + f": on the other path field `{a.attr}` of the callee node and of the block node are never related and nodes differing in it unify "
+                                f"(a block loop seq(3, 16) is accepted as an instance of the callee loop seq(0, n))"))
+        res.sample(f"{qn}: {n_pairs} field pairings so far, each governed by the constructor dispatch only")
+    if n_pairs < 14:
+        raise AnalysisError(f"PAIRCOND: only {n_pairs} field pairings recognised in unify_stmts / unify_e — idiom changed, checker blind")
+    res.floor = 14
+    return res
